@@ -326,6 +326,32 @@ class StateScenario(Scenario):
             rec.fail("C12/defined", "C12/defined-flag/%s/%s/%s" % (route, what, "should-be-%s" % want),
                      "after %s, is_value_defined(%s) is %r, expected %r" % (route, key, got, want))
 
+    def check_defined_by_path(self, st, cfg, rec, route):
+        """C12: the user-defined status of a field is one fact: asking the root by the field's full dotted path and asking the
+        owning configuration by the bare key give the same answer, at every depth."""
+        if self.prop != "C12":
+            return
+        tgts, _, _ = ops.targets(st.sd, cfg)
+        for t in tgts:
+            if t.owner is None or "." not in t.path or "[" in t.path or "{" in t.path or t.node.get("dynamic") or t.node["kind"] in ("virtual", "method"):
+                continue
+            if t.value is schema.MISSING:
+                continue
+            key = ops.split_last(t.path)[1]
+            rec.check()
+            try:
+                a, b = bool(is_value_defined(t.owner, key)), bool(is_value_defined(cfg, t.path))
+            except SeamGap:
+                raise
+            except Exception:  # noqa: BLE001 - a level that cannot be traversed: nothing to compare
+                continue
+            if a != b:
+                rec.fail("C12/defined", "C12/defined-flag-differs-by-spelling/depth%d" % min(t.path.count(".") + 1, 3),
+                         "after %s, is_value_defined(root, %r) is %r but is_value_defined(<its configuration>, %r) is %r"
+                         % (route, t.path, b, key, a))
+            elif t.path.count(".") >= 2:
+                rec.probe("defined-status-by-deep-dotted-path")
+
     # =========================================================================== generation
     def gen_op(self, st, rng):
         h = st.h
@@ -788,6 +814,7 @@ class StateScenario(Scenario):
             st.world.fired.append((st.world.step, {"kind": "callback-err", "seam": "callback", "errno": op["faults"][0].get("exc")}))
         for other in st.cfgs:
             self.check_holds(st, other, rec, op["op"] + (":" + op["name"] if "name" in op else ""))
+            self.check_defined_by_path(st, other, rec, op["op"])
 
     def _call(self, fn):
         try:
